@@ -24,6 +24,7 @@ import (
 	"verif/lib/vlib"
 	"verif/ref/refaddr"
 	"verif/ref/refec"
+	"verif/ref/refscript"
 	"verif/ref/refsighash"
 	"verif/ref/reftx"
 )
@@ -55,6 +56,9 @@ func main() {
 	}
 	if _, err := refsighash.Calibrate(testDir); err != nil {
 		broken("refsighash calibration failed: %v", err)
+	}
+	if _, err := refscript.Calibrate(testDir); err != nil {
+		broken("refscript calibration failed: %v", err)
 	}
 	if err := selfTest(); err != nil {
 		broken("oracle self-test failed: %v", err)
@@ -146,7 +150,7 @@ func main() {
 	run.Assume("default change script = script of the output spent by the first input (help text of -change: 'otherwise return it to the 1st input'); a change output is expected iff inputs - payments - fee > 0 (the wallet documents no dust rule)")
 	run.Assume("with -f the fee is subtracted from the first -send amount; -f together with -batch only is accepted either way (the wallet ignores -f there: counted as batch_f_ignored)")
 	run.Assume("a request must succeed when the outputs the wallet is designed to recognise in its mode cover it (P2PKH, P2WPKH, P2TR of its keys in every mode, P2SH-P2WPKH with atype p2kh/segwit) and must fail when all outputs of its keys together do not; in between both are accepted")
-	run.Assume("refscript was not available when this monitor was built: validity of an input = exact standard key-spend structure + strict DER + low S + SIGHASH_ALL + signature verifies over the reference digest (legacy / BIP143 / BIP341)")
+	run.Assume("validity of an input = exact standard key-spend structure + strict DER + low S + SIGHASH_ALL + signature verifies over the reference digest (legacy / BIP143 / BIP341, refsighash + refec), and additionally refscript.Verify with all standardness flags; context rules (lock time finality, BIP68, fees vs. relay policy, dust) are not judged")
 	os.RemoveAll(tmp)
 	minTx := nCases / 3
 	if run.Get("raw_fields_identical") < int64(nCases/20) {
